@@ -63,3 +63,21 @@ Example C12_example :
                 | _ => false end) [a; b; c; p; s]
   = [true; true; true; true; true].
 Proof. vm_compute. reflexivity. Qed.
+
+(* a cycle that closes only during the out-of-band rebuild of a checksummed
+   dependency (finding F21): T -> d, d checksummed over src; after a good build
+   src changes and d starts to ask for T.  redo-ifchange T hands d to
+   redo-unlocked with T's id in REDO_CYCLES: the nested request for T is a
+   cycle (the command fails; before the fix the real redo waited for ever) *)
+Example C12_oob_cycle_example :
+  let T := [84] in let d := [100] in let src := [115] in
+  let mk deps stamp p := {| s_deps := deps; s_ifcreate := []; s_always := false; s_stamp := stamp;
+                            s_out := OStdout; s_payload := p; s_cat := true; s_exit := 0%Z; s_tol := false |} in
+  let h := [SWrite src [1]; SWriteDo (T ++ b_do) (mk [d] false 10); SWriteDo (d ++ b_do) (mk [src] true 20);
+            SCmd (CIfChange false [T]);
+            SWrite src [2]; SWriteDo (d ++ b_do) (mk [src; T] true 20);
+            SCmd (CIfChange false [T])] in
+  map (fun x => match snd x with Some (OutBuild evs rc) => Some (Z.eqb rc 0) | _ => None end)
+      (run_history h (init_world 0))
+  = [None; None; None; Some true; None; None; Some false].
+Proof. vm_compute. reflexivity. Qed.
